@@ -42,6 +42,7 @@ func register(id string, needSSA bool, run func(*Ctx)) {
 func init() {
 	register("C02", false, runC02)
 	register("C11", false, runC11)
+	register("C04", false, runC04)
 }
 
 func main() {
@@ -53,7 +54,18 @@ func main() {
 	replay := flag.String("replay", "", "replay file: re-evaluate only that obligation")
 	list := flag.Bool("list", false, "list registered properties")
 	noEvidence := flag.Bool("no-evidence", false, "do not write evidence (self-test variants)")
+	dump := flag.String("dump", "", "debug: dump emission table of a package (vaxis | widgets/term)")
 	flag.Parse()
+	if *dump != "" {
+		abs, _ := filepath.Abs(*repo)
+		p, err := Load(abs, *goos, false)
+		if err != nil {
+			fmt.Println(err)
+			os.Exit(2)
+		}
+		dumpEmissions(p, *dump)
+		return
+	}
 	if *list {
 		ids := []string{}
 		for id := range registry {
